@@ -247,12 +247,13 @@ text=("Model of Glob (component loop, literal fast path, directory scan with the
               "(Lex/Reprint.v): proved for every text the word scanner accepts (plain characters, the three quotings, escapes, line continuations, any Unicode scalar "
               "values) that the parts it returns, written in the printer's notation, are scanned back to exactly the same parts and rest; the notation model is compared "
               "with printer.Fprint on every run (handler rword: all texts of <=4 symbols and random longer ones); the same theorem with simple parameter expansions "
-              "($name, $1, $@ ..., outside and inside double quotes) on a rune-level scanner model (Lex/Reprint2.v), tied the same way; the printer's notation for "
+              "($name, $1, $@ ..., outside and inside double quotes; Lex/Reprint2.v) and with braced expansions (${name}, ${#name}, ${name op word} with the fourteen "
+              "operators, nested to any depth, with the scanner's look-aheads after ${# and after % and #; Lex/Reprint3.v) on rune-level scanner models tied the same way; the printer's notation for "
               "braced expansions is modelled too (print_pexp, compared on constructed nodes) and is where open finding F64 is a theorem. NOT modelled / not "
               "proved: quoting of words with expansions, separators and layout under the 256 styles; decided on every run by the round trip itself: generated programs + "
               "corpora x 16 pairwise-covering Configs (every 16th and the corpus: all 256): the printed text must be accepted with the same skeleton."),
         note=BASE_NOTE + "Modelled, not verified: the printer apart from its here-document bookkeeping and its notation for words of literal quotings.",
-        technique="Coq invariant proof on the printer's here-document bookkeeping + operation-replay correspondence + print/parse round trip under all styles",
+        technique="Coq proofs (here-document bookkeeping invariant; printed words are scanned back, on scanner models with quotations and parameter expansions) + operation-replay and word-level correspondence + print/parse round trip under all styles",
         design="5 C05"),
     "C19": dict(
         text=("Proved: Option.String is total on every bit combination (loop bound translated from the source on every run); the model of Eval "
